@@ -8,6 +8,7 @@ import (
 	"fmt"
 	"math"
 	"regexp"
+	"regexp/syntax"
 	"strings"
 
 	"github.com/issue9/mux/v9/types"
@@ -95,6 +96,12 @@ func (i *Interceptors) NewSegment(val string) (*Segment, error) {
 		seg.matcher = matcher
 		seg.calcAmbiguousLength()
 		return seg, nil
+	}
+
+	// 规则本身必须是一个完整的表达式，否则与名称和后缀组合之后，其含义可能会发生变化，
+	// 比如 a)|(b 会变成 (?P<name>a)|(b)，匹配时命名分组可能并不参与匹配。
+	if _, err := syntax.Parse(seg.rule, syntax.Perl); err != nil {
+		return nil, err
 	}
 
 	seg.Type = Regexp
